@@ -82,7 +82,7 @@ fn c16_static_table_rows() {
     kani::cover!(true, "reached");
 }
 
-// @h props=C16 tier=quick t=120 expect=fail sub=twin
+// @h props=C16 tier=quick t=900 expect=fail sub=twin
 // @fn wtransport-proto/src/qpack.rs StaticTable::lookup_field
 // @bound twin: claims row 17 is (":method","POST"); must be refuted
 #[kani::proof]
